@@ -129,6 +129,15 @@ func (P *Program) addrEffect(addr ssa.Value, e *effect) {
 
 // funcEffects: memoized effect of calling fn (heap keys only).
 func (P *Program) funcEffects(fn *ssa.Function, depth int) *effect {
+	if depth == 0 {
+		// functions are verified concurrently; the memo (with its in-progress markers) is shared
+		P.effMu.Lock()
+		defer P.effMu.Unlock()
+	}
+	return P.funcEffects1(fn, depth)
+}
+
+func (P *Program) funcEffects1(fn *ssa.Function, depth int) *effect {
 	if e, ok := P.effMemo[fn]; ok {
 		if e == nil { // in progress: recursion
 			r := newEffect()
@@ -229,7 +238,7 @@ func (P *Program) staticCallEffect(f *ssa.Function, cc *ssa.CallCommon, e *effec
 	}
 	if P.inRepo(f) || f.Synthetic != "" {
 		if len(f.Blocks) > 0 {
-			e.merge(P.funcEffects(f, depth+1))
+			e.merge(P.funcEffects1(f, depth+1))
 			return
 		}
 	}
@@ -436,6 +445,8 @@ func (P *Program) staticType(e ast.Expr, env map[string]types.Type) types.Type {
 
 // loopEffect: what the blocks of one loop may modify.
 func (P *Program) loopEffect(fn *ssa.Function, li *loopInfo, head *ssa.BasicBlock) *effect {
+	P.effMu.Lock()
+	defer P.effMu.Unlock()
 	var blocks []*ssa.BasicBlock
 	for b := range li.body[head] {
 		blocks = append(blocks, b)
